@@ -145,6 +145,32 @@ def run(ctx):
         mine = [h for h in hs if h["m"] == mode]
         lines = [to_line(h) for h in mine]
         exs = run_harness(ctx, exe, mode, lines, "all")
+        if mode == "spq":
+            # The per-distance lists of spq persist (empty) once created, so in one process only the first behaviours
+            # exercise the creation of a list while lists for other distances exist.  Replay, for every ORDER in which
+            # distances are first used, some behaviours in a fresh process (fresh scheduler object = the model's q = <<>>).
+            groups = {}
+            for h, l in zip(mine, lines):
+                order = []
+                for o in h["ops"]:
+                    if o["op"] == "S" and o["d"] not in order:
+                        order.append(o["d"])
+                if len(order) >= 2 and order != sorted(order):
+                    groups.setdefault(tuple(order), []).append((h, l))
+            extra_h, extra_l, extra_e = [], [], []
+            for gi, (order, hl) in enumerate(sorted(groups.items())):
+                # inside one process every behaviour after the first sees the lists already created: order the group so
+                # that the longest behaviours come first and run a few single-behaviour processes
+                hl = sorted(hl, key=lambda x: -len(x[1]))[: (1 if q else 4)]
+                for bi, (h, l) in enumerate(hl):
+                    e1 = run_harness(ctx, exe, mode, [l], "fresh%d_%d" % (gi, bi))
+                    if len(e1) == 1:
+                        extra_h.append(h); extra_l.append(l); extra_e.append(e1[0])
+            ctx.extra["spq_fresh_process_runs"] = len(extra_l)
+            ctx.extra["spq_distance_creation_orders"] = [list(o) for o in sorted(groups)]
+            mine = mine + extra_h
+            lines = lines + extra_l
+            exs = exs + extra_e
         if len(exs) != len(lines):
             raise tlc.TLCError("harness produced %d executions for %d behaviours (%s)" % (len(exs), len(lines), mode))
         for h, l, e in zip(mine, lines, exs):
